@@ -231,6 +231,50 @@ def sv_port(inst, port, backend):
   return n, 0
 
 
+def _mk_setter(port):
+  """lambda top, int: drive a top-level input port (Bits or bitstruct) with the packed value"""
+  from pymtl3.datatypes import is_bitstruct_class, mk_bits
+  r, T = repr(port), port._dsl.Type
+  f = eval(f"lambda s, v: s.{r[2:]}.__imatmul__(v)")
+  if is_bitstruct_class(T):
+    B = mk_bits(T.nbits)
+    return lambda s, v: f(s, T.from_bits(B(v)))
+  return f
+
+
+def _mk_getter(port):
+  from pymtl3.datatypes import is_bitstruct_class
+  r, T = repr(port), port._dsl.Type
+  if is_bitstruct_class(T): return eval(f"lambda s: int(s.{r[2:]}.to_bits())")
+  return eval(f"lambda s: int(s.{r[2:]})")
+
+
+def yosys_struct_leaves(T, prefix):
+  """[(leaf port name, lo bit, width)] of a bitstruct-typed top-level port in the flattened Yosys text (first field = most significant bits)"""
+  from pymtl3.datatypes import is_bitstruct_class
+  out = []
+  hi = T.nbits
+  for fname, ft in T.__bitstruct_fields__.items():
+    if isinstance(ft, list): raise MachineryError(f"array field {fname} of a top-level struct port is not handled by the class harness")
+    w = ft.nbits
+    if is_bitstruct_class(ft): out += [(n, lo + hi - w, ww) for n, lo, ww in yosys_struct_leaves(ft, f"{prefix}__{fname}")]
+    else: out.append((f"{prefix}__{fname}", hi - w, w))
+    hi -= w
+  return out
+
+
+def drive_port(inst, port, backend, loc, v):
+  """set one top-level input of the interpreted text; a struct-typed port of the Yosys text is driven through its flattened leaves"""
+  from pymtl3.datatypes import is_bitstruct_class
+  T = port._dsl.Type
+  if backend == "yosys" and is_bitstruct_class(T):
+    for n, lo, w in yosys_struct_leaves(T, loc[0]):
+      if n not in inst.vars: raise KeyError(n)
+      inst.set_port(n, (v >> lo) & ((1 << w) - 1), loc[1])
+    return
+  inst.set_port(loc[0], v, loc[1])
+
+
 def port_width_mismatch(inst, maps):
   """first (port, PyMTL width, declared width) whose declaration in the text has another width than the PyMTL port"""
   for r, w, loc in maps:
@@ -282,13 +326,14 @@ def check_class(name, cls, backend, acc, vectors):
   if bad:
     acc.violation(f"{sig_prefix}:port-width-differs:{name}", case, f"{bad[0]} is {bad[1]} bits wide", f"declared with {bad[2]} bits in the text", name)
     return "violation"
-  setters = {r: eval(f"lambda s, v: s.{r[2:]}.__imatmul__(v)") for r, w, _ in imap}
-  getters = {r: eval(f"lambda s: int(s.{r[2:]})") for r, w, _ in omap}
+  setters = {repr(p): _mk_setter(p) for p in ins}
+  getters = {repr(p): _mk_getter(p) for p in outs}
   nsteps = 0
+  pobj = {repr(p): p for p in ins}
   for vec in vectors(imap):
     for (r, w, (vn, el)) in imap:
       v = vec[r] & ((1 << w) - 1)
-      setters[r](m, v); inst.set_port(vn, v, el)
+      setters[r](m, v); drive_port(inst, pobj[r], backend, (vn, el), v)
     try:
       m.sim_tick(); inst.tick()
     except (svsim.SimError, SvSyntaxError) as ex:
@@ -351,8 +396,8 @@ def check_class_ref(name, cls, backend, acc, seqs, ref, sig_prefix=None):
     if bad:
       acc.violation(f"{sig_prefix}:port-width-differs:{name}", case, f"{bad[0]} is {bad[1]} bits wide", f"declared with {bad[2]} bits in the text", name)
       return "violation"
-    setters = {r: eval(f"lambda s, v: s.{r[2:]}.__imatmul__(v)") for r, w, _ in imap}
-    getters = {r: eval(f"lambda s: int(s.{r[2:]})") for r, w, _ in omap}
+    setters = {repr(p): _mk_setter(p) for p in ins}
+    getters = {repr(p): _mk_getter(p) for p in outs}
     state = None
     for step, vec in enumerate(seq):
       for (r, w, loc) in imap:
